@@ -429,6 +429,33 @@ var c20Cmds = []c20Cmd{
 	{"export-proto", func(g *c20Gen, t *rapid.T) []string {
 		return []string{"export", "-f", "proto", "-a", c20AppArg(g, t), "-o", "p.proto", "m.sysl"}
 	}},
+	{"diagram-integration", func(g *c20Gen, t *rapid.T) []string {
+		args := []string{"diagram", "-i"}
+		if rapid.Bool().Draw(t, "diagapp") {
+			args = append(args, "-a", c20AppArg(g, t))
+		}
+		return append(args, "-o", "d.svg", "m.sysl")
+	}},
+	{"diagram-sequence", func(g *c20Gen, t *rapid.T) []string {
+		a := pick(t, g.apps, "diagsdapp")
+		e := "Get"
+		if len(g.eps[a]) > 0 {
+			e = pick(t, g.eps[a], "diagsdep")
+		}
+		return []string{"diagram", "-s", "-a", a, "-e", e, "-o", "d.svg", "m.sysl"}
+	}},
+	{"diagram-data", func(g *c20Gen, t *rapid.T) []string {
+		args := []string{"diagram", "-d"}
+		if rapid.Bool().Draw(t, "diagapp") {
+			args = append(args, "-a", c20AppArg(g, t))
+		}
+		return append(args, "-o", "d.svg", "m.sysl")
+	}},
+	// import of generated foreign specifications (documents drawn by C11's generators); args filled in by genC20
+	{"import-openapi2", nil},
+	{"import-openapi3", nil},
+	{"import-xsd", nil},
+	{"import-sql", nil},
 	{"db-scripts", func(g *c20Gen, t *rapid.T) []string {
 		return []string{"generate-db-scripts", "-a", c20AppArg(g, t), "-d", "postgres", "-o", "dbout", "-t", "T", "m.sysl"}
 	}},
@@ -455,6 +482,28 @@ func genC20(t *rapid.T) c20Case {
 	}
 	cmd := c20Cmds[ci]
 	c := c20Case{Files: map[string]string{"m.sysl": text}, Cmd: cmd.label}
+	if strings.HasPrefix(cmd.label, "import-") {
+		var fc c11Case
+		switch cmd.label {
+		case "import-openapi2":
+			fc = c11GenOAS(2)(t)
+		case "import-openapi3":
+			fc = c11GenOAS(3)(t)
+		case "import-xsd":
+			fc = c11GenXSDCase(t)
+		default:
+			fc = c11GenSQLCase(t)
+		}
+		name := "doc" + filepath.Ext(fc.Path)
+		c.Files = map[string]string{name: fc.Content}
+		c.Args = []string{"import", "--input", name, "-a", "TestApp", "-p", "pkg", "-o", "out.sysl"}
+		if fc.FormatID != "" {
+			c.Args = append(c.Args, "-f", fc.FormatID)
+		}
+		c.Classes = append([]string{"foreign_document"}, fc.Classes...)
+		sort.Strings(c.Classes)
+		return c
+	}
 	c.Args = cmd.args(g, t)
 	if cmd.label == "db-scripts-delta" {
 		if rapid.Bool().Draw(t, "samemodel") {
@@ -541,7 +590,13 @@ func checkC20(x *X, c c20Case) error {
 	if err != nil {
 		return fmt.Errorf("harness: %v", err)
 	}
-	desc := fmt.Sprintf("sysl %s\n---- m.sysl\n%s", strings.Join(c.Args, " "), c.Files["m.sysl"])
+	main := "m.sysl"
+	if _, ok := c.Files[main]; !ok {
+		for n := range c.Files {
+			main = n
+		}
+	}
+	desc := fmt.Sprintf("sysl %s\n---- %s\n%s", strings.Join(c.Args, " "), main, c.Files[main])
 	if r.timedOut {
 		r2, _ := c20Exec(c, 120*time.Second)
 		if r2 != nil && r2.timedOut {
@@ -563,7 +618,7 @@ func checkC20(x *X, c c20Case) error {
 		return finding(strings.SplitN(c.Cmd, "-", 2)[0]+":"+kind+"@"+frame, "command died with a Go runtime crash (exit %d): %s\n%s", r.rc, m, desc)
 	}
 	if len(c.Classes) > 0 {
-		x.NonTrivial(c.Cmd + "\x00" + c.Files["m.sysl"] + strings.Join(c.Args, " "))
+		x.NonTrivial(c.Cmd + "\x00" + c.Files[main] + strings.Join(c.Args, " "))
 	}
 	if r.rc == 0 {
 		x.Class("exit_0")
@@ -576,12 +631,12 @@ func checkC20(x *X, c c20Case) error {
 			return fmt.Errorf("non-zero exit status %d without any message\n%s", r.rc, desc)
 		}
 	}
-	x.Sample(map[string]interface{}{"args": c.Args, "rc": r.rc, "model": c.Files["m.sysl"]})
+	x.Sample(map[string]interface{}{"args": c.Args, "rc": r.rc, "model": c.Files[main]})
 	return nil
 }
 
 var c20Prop = Define("C20", "cli",
-	"untidy-but-valid models (dangling call targets: app or endpoint; dangling, one-segment, cross-app, self- and mutually recursive type references; empty apps and types; call cycles incl. among ~hidden endpoints of pass-through applications; tables with foreign keys incl. self/cyclic/dangling; passthrough/exclude project views; project lists naming a missing app) x one of 21 command/option sets (pb x4, validate, sd x2 with 1-3 start endpoints, blackbox/groupby, ints x4, datamodel x2, export x6, generate-db-scripts, -delta incl. a model against itself) run with the sysl binary built from the working tree; oracle: terminates, no 'panic:'/'fatal error:'/'goroutine' on stderr, non-zero exit carries a message. A crash is keyed by '<command>:<kind>@<first frame in the repository>'. Non-trivial: the model contains at least one untidy element; distinct by (command line, model).",
+	"untidy-but-valid models (dangling call targets: app or endpoint; dangling, one-segment, cross-app, self- and mutually recursive type references; empty apps and types; call cycles incl. among ~hidden endpoints of pass-through applications; tables with foreign keys incl. self/cyclic/dangling; passthrough/exclude project views; project lists naming a missing app) x one of 28 command/option sets (pb x4, validate, sd x2 with 1-3 start endpoints, blackbox/groupby, ints x4, datamodel x2, diagram -i/-s/-d, export x6, generate-db-scripts, -delta incl. a model against itself; import of OpenAPI 2/3, XSD and SQL documents drawn by C11's generators) run with the sysl binary built from the working tree; oracle: terminates, no 'panic:'/'fatal error:'/'goroutine' on stderr, non-zero exit carries a message. A crash is keyed by '<command>:<kind>@<first frame in the repository>'. Non-trivial: the model contains at least one untidy element; distinct by (command line, model).",
 	genC20, checkC20)
 
 func TestC20(t *testing.T) {
